@@ -53,7 +53,12 @@ def _flat(items):
             yield x
 
 
-def canon(r, perm):
+_COMMA_CLOSE = re.compile(r"\s*,\s*\)")
+
+
+def canon(r, perm, tuples=False):
+    """impls as a sorted tuple of JSON strings; perm: where-predicates sorted too; tuples: a comma before a
+    closing parenthesis is dropped (a listed tuple type `(A, B,)` is echoed with its comma)"""
     if "ok" not in r:
         return None
     items = r.get("items")
@@ -64,7 +69,8 @@ def canon(r, perm):
         x = dict(x)
         if perm and "where" in x:
             x["where"] = sorted(x["where"])
-        out.append(json.dumps(x, sort_keys=True))
+        j = json.dumps(x, sort_keys=True)
+        out.append(_COMMA_CLOSE.sub(")", j) if tuples else j)
     return tuple(sorted(out))
 
 
@@ -195,6 +201,8 @@ def rewrite_class(derive, kind, outcome):
         if derive in ("From", "Into", "AsRef", "AsMut"):
             return "keyword-trailing-comma-reinterpreted-as-type"
         return "keyword-trailing-comma-rejected"
+    if kind.startswith("trailing-comma-nested"):
+        return "nested-trailing-comma-differs:%s:%s" % (family(derive), outcome)
     if kind == "trailing-comma-lone-literal":
         return "fmt-lone-literal-trailing-comma-double-comma"
     return "synonym-differs:%s:%s:%s" % (family(derive), kind, outcome)
@@ -346,8 +354,9 @@ def run(tier, seed, replay):
             continue
         if c["role"] == "rewrite" or (c["role"] == "replay" and "mode" in c):
             perm = c["mode"] == "perm"
+            tup = c["mode"] == "exact-tuples"
             rb = R[(d, c["base_src"])]
-            same = canon(r, perm) == canon(rb, perm) and canon(rb, perm) is not None
+            same = canon(r, perm, tup) == canon(rb, perm, tup) and canon(rb, perm, tup) is not None
             chk.count((d, c["item_src"]), True)
             chk.bump("rewrite:%s:%s" % (c["kind"], "equal" if same else ("rejected" if v != "ok" else "different")))
             if not same:
@@ -474,7 +483,7 @@ def run(tier, seed, replay):
         rule="per attribute-taking derive (%d derives): seeded random well-formed attribute sets from the documented grammar "
              "on the documented positions (struct/enum/variant/field shapes varied); every applicable synonymous rewrite "
              "(skip<->ignore, bound<->bounds, merged<->split lists, trailing commas after lists / keywords / a lone "
-             "literal, reversed order of independent attributes and of list elements) and every applicable single-step "
+             "literal and one list level down (inside not(..), owned/ref/ref_mut(..), listed tuple types), reversed order of independent attributes and of list elements) and every applicable single-step "
              "corruption (unknown argument, legacy syntax, duplicate, mixed kinds, contradiction, documented conflict, "
              "wrong position / item kind, meaningless for the item kind); every case is non-trivial; distinct by "
              "(derive, item source)" % len(gens),
